@@ -263,6 +263,13 @@ impl Prop for C06 {
             t.set_message(k, msg);
             m.entries.push((k.clone(), stored(msg)));
         }
+        // one archive in three has a failed save behind it: a key without a Shift-JIS form is set, a save attempted (outcome ignored), the key deleted
+        if case.entries.len() % 3 == 1 {
+            t.set_message(super::prior::UNENCODABLE, "x");
+            super::prior::quiet(|| t.serialize().is_ok());
+            t.delete_message(super::prior::UNENCODABLE);
+            cx.label("after-a-failed-save-of-this-object");
+        }
         let re = match check_round_trip(cx, "first round trip", case, &t, &m) {
             Some(r) => r,
             None => return,
